@@ -1839,6 +1839,15 @@ class ScopeStack:
                 )
             )
 
+        if not namespace.entrypoint.execute:
+            # VV: execute[0] is read right below, an entrypoint that does not execute anything is a grammar error
+            dsl_error.underlying_errors.append(
+                experiment.model.errors.DSLInvalidFieldError(
+                    location=["entrypoint", "execute"],
+                    underlying_error=ValueError("entry-instance set but execute is empty")
+                )
+            )
+
         if dsl_error.underlying_errors:
             raise dsl_error
 
